@@ -11,6 +11,8 @@ Prelude == <<Func("FDIV", <<"A">>, <<Return(Bin("/", I(1), V("A")))>>), Let("TT"
 Main(x) == Prelude \o x.defs \o <<Forall("EE", V("TT"), "auto", x.body)>> \o <<P("after")>>
 Probe == <<Break, For("J", I(1), I(3), NoExpr, "auto", <<PutS(<<V("J")>>)>>), P(""),
            Let("I1", Str("s")), Let("I2", Str("s")), Let("E1", Str("s")), Let("E2", Str("s")), Let("EE", Str("s")),
+           \* the iterator of an inner traversal of the same table is free again, and can be an iterator again
+           Let("EF", Str("s")), Forall("EF", V("TT"), "auto", <<PutS(<<V("EF")>>)>>), Let("EF", I(0)),
            Do(Mem(V("TT"), "put", <<I(0), I(5)>>)), Let("X", UCall("FDIV", <<I(1)>>)), P("ok")>>
 
 Hash(x) == (Len(ToString(x)) * 7919 + Seed * 104729) % 1000003
@@ -22,8 +24,11 @@ AllShapes == UNION {Shapes(d) : d \in 0..(Depth - 1)} \cup
 Main2(x) == Prelude \o x.defs \o x.body \o <<P("after")>>
 Bare == UNION {Shapes(d) : d \in 0..(Depth - 1)}
 
+\* third form: the table is traversed twice around the nest (an inner traversal starts while the table is already locked)
+Main3(x) == Prelude \o <<Forall("EE", V("TT"), "auto", <<Forall("EF", V("TT"), "auto", x.body), P("mid")>>)>> \o <<P("after")>>
+Twice == {x \in UNION {Shapes(d) : d \in 0..1} : x.defs = <<>>}
 VARIABLE p
-Init == p \in {[x |-> x, m |-> Main(x)] : x \in AllShapes} \cup {[x |-> x, m |-> Main2(x)] : x \in Bare}
+Init == p \in {[x |-> x, m |-> Main(x)] : x \in AllShapes} \cup {[x |-> x, m |-> Main2(x)] : x \in Bare} \cup {[x |-> x, m |-> Main3(x)] : x \in Twice}
 Next == UNCHANGED p
 Scenario(q) ==
   LET m == q.m IN
